@@ -254,7 +254,7 @@ def explore(tier):
     sat, rounds = witness.fixpoint()
     specs = witness.all_base_specs(rich=(tier == "thorough"), with_tour=True,
                                    max_size=200 if tier == "thorough" else 80)
-    res = core.pmap(validate_witness, specs, chunksize=8)
+    res = core.pmap(validate_witness, specs, on_timeout=lambda item, limit, timed_out=True: (item[0], 0, [problem("did_not_terminate", {"witness": item[0], "spec": item[1]}, expected="validation finishes", observed="no result within the limit")] if timed_out else []))
     sizes = []
     for label, sz, probs in res:
         sizes.append(sz)
